@@ -267,6 +267,13 @@ MAIN:
 		case syncup := <-d.synCh:
 			if syncup.Start {
 				log.Debugf("%s: sync start", d.Name())
+				// notifications received before the re-sync started must have been written before the prune ID
+				// is created, otherwise they count as part of the new cycle and survive its prune
+				err = sem.Acquire(ctx, d.config.Sync.WriteWorkers)
+				if err != nil {
+					return
+				}
+				sem.Release(d.config.Sync.WriteWorkers)
 				for {
 					pruneID, err = d.cacheClient.CreatePruneID(ctx, d.Name(), syncup.Force)
 					if err != nil {
